@@ -203,47 +203,61 @@ def rule_R8_R11_shape(text):
     while True:
         m = rsscan.mask(text)
         hit = None
-        for mt in re.finditer(r'\bfor\s*\(\s*(&?\w+)\s*,\s*(&?\w+)\s*\)\s+in\s+', m):
+        for mt in re.finditer(r'\bfor\s+(\(\s*\(\s*&?\w+\s*,\s*&?\w+\s*\)\s*,\s*&?\w+\s*\)|\(\s*&?\w+\s*,\s*&?\w+\s*\)|\w+)\s+in\s+', m):
             if not rsscan.is_stmt_start(m, mt.start(), 0):
                 continue
             bo = rsscan.find_body_open(m, mt.end())
             if bo < 0:
                 continue
+            pat = ''.join(mt.group(1).split())
             hdr = ' '.join(text[mt.end():bo].split())
             bc = rsscan.match_close(m, bo)
             body = m[bo + 1:bc]
-            new = None
-            z = re.fullmatch(r'(.+?)\.iter_mut\(\)\.zip\((.+?)\.iter\(\)\)', hdr)
             nbody = ' '.join(text[bo + 1:bc].split())
-            a_, b_ = mt.group(1), mt.group(2)
-            if z and b_.startswith('&'):
-                g = re.fullmatch(r'\*%s = (\w+)\[%s\];' % (re.escape(a_), re.escape(b_[1:])), nbody)
-                if not g:
-                    raise Inconclusive('R8 gather: unexpected loop body %r' % nbody)
-                new = 'verif_gather(%s, %s, %s);' % (z.group(1), g.group(1), z.group(2))
-                hit = (mt.start(), bc + 1, new)
-                break
-            if z:
-                new = 'verif_elementwise(%s, &%s);' % (z.group(1), z.group(2))
-            z = re.fullmatch(r'(.+?)\.iter\(\)\.zip\((.+?)\.iter\(\)\)', hdr)
-            if z and new is None and b_.startswith('&'):
-                g = re.fullmatch(r'(\w+)\[%s\] = \*%s;' % (re.escape(b_[1:]), re.escape(a_)), nbody)
-                if not g:
-                    raise Inconclusive('R8 scatter: unexpected loop body %r' % nbody)
-                new = 'verif_scatter(%s, %s, %s);' % (g.group(1), z.group(1), z.group(2))
-                hit = (mt.start(), bc + 1, new)
-                break
-            z = re.fullmatch(r'(.+?)\.chunks_exact_mut\((.+?)\)\.enumerate\(\)', hdr)
-            if z and new is None:
-                new = 'verif_fill_chunks(&mut %s, %s);' % (z.group(1), z.group(2))
-            z = re.fullmatch(r'(.+?)\.iter_mut\(\)\.enumerate\(\)', hdr)
-            if z and new is None:
-                new = 'verif_fill(&mut %s);' % z.group(1)
+            new = None
+            names = re.findall(r'&?\w+', pat)
+            if len(names) == 2:
+                a_, b_ = names
+                z = re.fullmatch(r'(.+?)\.iter_mut\(\)\.zip\((.+?)\.iter\(\)\)', hdr)
+                if z and b_.startswith('&'):
+                    g = re.fullmatch(r'\*%s = (\w+)\[%s\];' % (re.escape(a_), re.escape(b_[1:])), nbody)
+                    if g:
+                        new = 'verif_gather(%s, %s, %s);' % (z.group(1), g.group(1), z.group(2))
+                if z and new is None:
+                    new = 'verif_elementwise(%s, &%s);' % (z.group(1), z.group(2))
+                z = re.fullmatch(r'(.+?)\.iter\(\)\.zip\((.+?)\.iter\(\)\)', hdr)
+                if z and new is None and b_.startswith('&'):
+                    g = re.fullmatch(r'(\w+)\[%s\] = \*%s;' % (re.escape(b_[1:]), re.escape(a_)), nbody)
+                    if not g:
+                        raise Inconclusive('R8 scatter: unexpected loop body %r' % nbody)
+                    new = 'verif_scatter(%s, %s, %s);' % (g.group(1), z.group(1), z.group(2))
+                    hit = (mt.start(), bc + 1, new)
+                    break
+                z = re.fullmatch(r'(.+?)\.chunks_exact_mut\((.+?)\)\.enumerate\(\)', hdr)
+                if z and new is None:
+                    new = 'verif_fill_chunks(&mut %s, %s);' % (z.group(1), z.group(2))
+                z = re.fullmatch(r'(.+?)\.iter_mut\(\)\.enumerate\(\)', hdr)
+                if z and new is None:
+                    new = 'verif_fill(&mut %s);' % z.group(1)
+            elif len(names) == 3:
+                # ((a, b), c) in X.iter[_mut]().zip(Y.iter[_mut]()).zip(Z.iter()): exactly one of X, Y is iterated mutably
+                z = re.fullmatch(r'(.+?)\.(iter|iter_mut)\(\)\s*\.zip\((.+?)\.(iter|iter_mut)\(\)\)\s*\.zip\((.+?)\.iter\(\)\)', hdr)
+                if z and (z.group(2) == 'iter_mut') != (z.group(4) == 'iter_mut'):
+                    dst, src = (z.group(1), z.group(3)) if z.group(2) == 'iter_mut' else (z.group(3), z.group(1))
+                    new = 'verif_elementwise3(%s, &%s, &%s);' % (dst, src, z.group(5))
+            else:
+                v = names[0]
+                zero_body = re.fullmatch(r'\*%s = Complex::zero\(\);' % re.escape(v), nbody)
+                z = re.fullmatch(r'\(&mut (.+?)\)\.iter_mut\(\)', hdr)
+                if z and zero_body:
+                    new = 'verif_fill_zero(&mut %s);' % z.group(1)
+                z = re.fullmatch(r'(.+?)\.iter_mut\(\)\.skip\((.+?)\)', hdr)
+                if z and zero_body and new is None:
+                    new = 'verif_fill_zero_from(%s, %s);' % (z.group(1), z.group(2))
             if new is None:
                 continue
             # nested fill loops are part of the same abstraction; the innermost bodies must be index/panic free
-            inner = body
-            if _UNSAFE_IN_SHAPE_BODY.search(re.sub(r'\bfor\s*\([^)]*\)\s+in\s+[^{]*\{', ' ', inner)):
+            if _UNSAFE_IN_SHAPE_BODY.search(re.sub(r'\bfor\s*\([^)]*\)\s+in\s+[^{]*\{', ' ', body)) and not new.startswith(('verif_gather', 'verif_scatter')):
                 raise Inconclusive('R8/R11: loop body is not a pure element-wise update: %r' % hdr)
             hit = (mt.start(), bc + 1, new)
             break
@@ -252,7 +266,7 @@ def rule_R8_R11_shape(text):
         a, b, new = hit
         text = text[:a] + _pad_newlines(text[a:b], new) + text[b:]
         n += 1
-    text, k = re.subn(r'vec!\[\s*Complex::zero\(\)\s*;\s*([^\]]+?)\s*\]', r'verif_new_table(\1)', text)
+    text, k = re.subn(r'vec!\[\s*(?:Complex|Zero)::zero\(\)\s*;\s*([^\]]+?)\s*\]', r'verif_new_table(\1)', text)
     return text, n + k
 
 
